@@ -2103,7 +2103,12 @@ pub fn run_prop(a: &Args, prop: &'static str, focus: Focus, rule: &str) -> i32 {
     // waves: (1) the first 3 of every group; (2) members 4..=8 of groups whose minimised members disagree;
     // (3) the rest of the groups that still disagree. Members of agreeing groups inherit the group's signature.
     let sig_of = |it: &Item, small: &[Stmt], sv: &Viol| -> String {
-        let traits = traits_of(small, sv);
+        let mut traits = traits_of(small, sv);
+        // the root-cause tag comes first, so that one prefix entry covers every witness shape of the TOAST family
+        if let Some(pos) = traits.iter().position(|t| t == "toast") {
+            let t = traits.remove(pos);
+            traits.insert(0, t);
+        }
         if traits.is_empty() { format!("{}/{}/{}", prop, it.v.assertion, it.v.core) } else { format!("{}/{}/{}/{}", prop, it.v.assertion, it.v.core, traits.join("+")) }
     };
     for wave in 0..3 {
